@@ -297,16 +297,54 @@ class H5Group:
         grp = dest_grp[name]
         grp.attrs["name"] = name
         if not keep_id:
+            oldids = dict()  # new id -> the id it replaces
+            groups = [grp]
+
             def change_id(_, igrp):
+                if isinstance(igrp, h5py.Group):
+                    groups.append(igrp)
                 if "entity_id" in igrp.attrs:
                     id_ = util.create_id()
+                    oldid = igrp.attrs["entity_id"]
+                    if isinstance(oldid, bytes):
+                        oldid = oldid.decode()
+                    oldids[id_] = oldid
                     igrp.attrs.modify("entity_id", np.bytes_(id_))
             id_ = util.create_id()
             grp.attrs.modify("entity_id", np.bytes_(id_))
             if hasattr(grp, "visititems"):
                 # a copied Property is a dataset and has no members
                 grp.visititems(change_id)
+                # link lists index their members by id: follow the new ids
+                for igrp in groups:
+                    self._rekey_links(igrp, oldids)
         return grp
+
+    @staticmethod
+    def _rekey_links(grp, oldids):
+        """
+        Renames the links of grp that are named after the former id of the
+        entity they point to (members of link lists) to its new id, keeping
+        their order.
+        """
+        names = list()
+        try:
+            grp.id.links.iterate(names.append,
+                                 idx_type=h5py.h5.INDEX_CRT_ORDER,
+                                 order=h5py.h5.ITER_INC)
+        except Exception:  # group without creation order index
+            names = list(grp)
+        for name in names:
+            name = name.decode() if isinstance(name, bytes) else name
+            attrs = grp[name].attrs
+            newid = attrs.get("entity_id")
+            if isinstance(newid, bytes):
+                newid = newid.decode()
+            entname = attrs.get("name")
+            if isinstance(entname, bytes):
+                entname = entname.decode()
+            if newid in oldids and oldids[newid] == name and entname != name:
+                grp.move(name, newid)
 
     @property
     def parent(self):
